@@ -4,12 +4,17 @@ from . import c01
 
 PROP_ID = "C02"
 FEATURE = "c02"
-ENGINE = "E1 kani-cbmc"
+ENGINE = "E1 kani-cbmc + E2 mir-smt"
 QUICK_MAX_S = 125
 FUNCTIONS = ["erltf::decode, decode_borrowed, decoder::decode_with_trailing, decode_with_atom_cache, decoder::decode_fragment_header, "
-             "decode_fragment_cont -> every parse_* with a wire-supplied length/arity/count field, owned and zero-copy copies"]
+             "decode_fragment_cont -> every parse_* with a wire-supplied length/arity/count field, owned and zero-copy copies",
+             "E2 (stateful MIR interpreter): parse_list, parse_small_tuple, parse_large_tuple, parse_new_fun_ext, parse_newer_reference, "
+             "parse_new_reference_ext, parse_compressed up to their first Vec::with_capacity"]
 ASSUMPTIONS = c01.ASSUMPTIONS + ["T3: every single allocation request must be <= 64*len(input)+4096 bytes (assertion in the allocator model; "
-                                 "the native replay uses a counting global allocator)"]
+                                 "the native replay uses a counting global allocator)",
+                                 "E2 capacity sites: input = slice of symbolic length and unknown content; nom number parsers return arbitrary values; nested "
+                                 "parse_term calls fail or succeed with an arbitrary Atom/Integer/Pid/Nil consuming >= 1 byte; decided: the first "
+                                 "Vec::with_capacity argument never exceeds both the input length and 65536"]
 OUTSIDE = ["free-form byte strings (every tag after every tag) — beyond CBMC on this decoder; the per-tag length-field family is what is decided",
            "stack depth of deeply nested containers (recursion is unbounded in parse_term; not decidable by bounded unrolling)",
            "inflate of COMPRESSED data (miniz_oxide under CBMC)"]
@@ -28,7 +33,8 @@ ENTRY = {0: "decode", 1: "decode_borrowed", 2: "decode_with_trailing", 3: "decod
 def bounds(tier):
     return {"inputs": "[131, TAG, length/arity/count field at each listed boundary value, symbolic bytes behind it] for tags %s; "
                       "NEW_FUN_EXT with boundary NumFree values; fragment header/continuation on 0..20 symbolic bytes" % [(t[1], t[5]) for t in TAGS],
-            "allocation budget": "64*len + 1 MiB per request"}
+            "allocation budget": "64*len + 1 MiB per request",
+            "capacity sites (E2)": "all input lengths below 2^40, all values of every wire field read before the site, every outcome of the nested term parses"}
 
 
 def fn(name, body):
@@ -68,3 +74,18 @@ def generate(tier, seed):
         src.append(fn(n, "    fragment_entry::<%d>();" % k))
         hs.append(H(n, "decode_fragment_header / decode_fragment_cont on %d symbolic bytes" % k))
     return "\n".join(src), hs
+
+
+def extra_checks(tier, seed):
+    from . import c02_caps
+    out = []
+    c02_caps.run(out)
+    return out
+
+
+def replay_case(case):
+    e = case.get("e2") or {}
+    if "capfn" in e:
+        from . import c02_caps
+        return c02_caps.replay(e["capfn"], e["in_len"], e["wire"])
+    return None
